@@ -778,6 +778,7 @@ func (e *Exec) smtFor2(o *Obligation) (string, string) {
 	if !ic.hasQ {
 		return e.smtFor(o), ""
 	}
+	proc = ic.abbreviate(proc, funSorts(head.String()))
 	if o.Cover {
 		// satisfiability question: answer it on the quantifier-free weakening (instances included); with
 		// quantifiers present no solver reports "sat". This shows the hypotheses are not plainly contradictory.
@@ -816,19 +817,27 @@ func (e *Exec) smtFor2(o *Obligation) (string, string) {
 		fmt.Fprintf(os.Stderr, "inst %s: %d asserts -> %d instances (%d bytes) in %v\n", o.Name, len(proc), len(inst), sizeOf(inst), time.Since(t0))
 	}
 	if sizeOf(inst) > 5<<20 {
-		// too many instances: retry with one round and a small per-quantifier budget; if that is still too big,
+		// too many instances: retry with smaller per-quantifier budgets / fewer rounds; if that is still too big,
 		// leave the quantifiers to the solvers
-		ic2 := &instCtx{sortOf: map[string]string{}, budget: 24}
-		var proc2 []*Sx
-		for _, h := range hyps {
-			flattenAssert(ic2.pos(h), &proc2)
+		ok := false
+		for _, try := range []struct{ budget, rounds int }{{24, 3}, {8, 3}, {24, 2}, {24, 1}} {
+			ic2 := &instCtx{sortOf: map[string]string{}, budget: try.budget}
+			var proc2 []*Sx
+			for _, h := range hyps {
+				flattenAssert(ic2.pos(h), &proc2)
+			}
+			flattenAssert(ic2.neg(parseSx(o.Goal)), &proc2)
+			proc2 = ic2.abbreviate(proc2, funSorts(head.String()))
+			inst2 := ic2.instantiate(proc2, try.rounds)
+			if sizeOf(inst2) <= 5<<20 {
+				ic, proc, inst = ic2, proc2, inst2
+				ok = true
+				break
+			}
 		}
-		flattenAssert(ic2.neg(parseSx(o.Goal)), &proc2)
-		inst2 := ic2.instantiate(proc2, 1)
-		if sizeOf(inst2) > 5<<20 {
+		if !ok {
 			return e.smtFor(o), ""
 		}
-		ic, proc, inst = ic2, proc2, inst2
 	}
 	var full, ground strings.Builder
 	full.WriteString(head.String())
